@@ -6,12 +6,25 @@ package main
 // and the complete host-visible observation (every trace event incl. SetValue keys, value digests and
 // order; events; logs; result / error kind; final ledger digest) is compared byte for byte.
 //
-// op:  det <engine> { <kind> <nsigners> <limit> <source> }*
-// obs: same|diff:<step>  runs=3  <trace of step 1> | <trace of step 2> | ...   (of the first run)
+// The compared observation of a step also contains the COMPLETE message text of the error of a failing
+// execution (`err.Error()`: every reported sub-error, in order), not only its kind.
+//
+// Contract-update family (`<engine>:<reps>`, see c33UpdateGen): a contract with several nested
+// declarations of different kinds (struct, resource, event, enum, struct / resource interface,
+// attachment; names chosen so that kind order and name order disagree) is deployed, then invalid
+// updates remove / change several of them at once (contracts.update and contracts.tryUpdate).  Such a
+// history is executed <reps> (20) times from scratch within one op: the validator collects the
+// removed declarations out of Go maps, Go randomises every map range, so an error list that leaks the
+// map order shows up as two different message texts among the repetitions.
+//
+// op:  det <engine>[:<reps>] { <kind> <nsigners> <limit> <source> }*
+// obs: same|diff:<step>:<component>:<detail>  runs=<reps>  <trace of step 1> | <trace of step 2> | ...   (of the first run)
 
 import (
 	"fmt"
+	"os"
 	goruntime "runtime"
+	"sort"
 	"strconv"
 	"strings"
 	"time"
@@ -47,7 +60,207 @@ func c33Multi(r *hx.Rng) (int, string) {
 	return ns, "transaction { prepare(" + strings.Join(params, ", ") + ") { " + strings.Join(body, "; ") + " } }"
 }
 
+// ---- contract-update family
+
+// kinds in the order of common.DeclarationKind (struct < resource < event < struct interface <
+// resource interface < enum < attachment)
+var c33Kinds = []string{"struct", "resource", "event", "struct interface", "resource interface", "enum", "attachment"}
+
+type c33Decl struct {
+	kind    int
+	name    string
+	variant int // 0 = as deployed; 1, 2 = changed member(s)
+}
+
+func (d c33Decl) src() string {
+	n := d.name
+	switch c33Kinds[d.kind] {
+	case "struct", "resource":
+		switch d.variant {
+		case 1: // field type changed
+			return fmt.Sprintf(`access(all) %s %s { access(all) let x: String  init() { self.x = "" } }`, c33Kinds[d.kind], n)
+		case 2: // field added
+			return fmt.Sprintf(`access(all) %s %s { access(all) let x: Int  access(all) let y: Int  init() { self.x = 1; self.y = 2 } }`, c33Kinds[d.kind], n)
+		}
+		return fmt.Sprintf(`access(all) %s %s { access(all) let x: Int  init() { self.x = 1 } }`, c33Kinds[d.kind], n)
+	case "event":
+		if d.variant != 0 {
+			return fmt.Sprintf(`access(all) event %s(x: String)`, n)
+		}
+		return fmt.Sprintf(`access(all) event %s(x: Int)`, n)
+	case "struct interface", "resource interface":
+		if d.variant != 0 {
+			return fmt.Sprintf(`access(all) %s %s { access(all) let x: Int }`, c33Kinds[d.kind], n)
+		}
+		return fmt.Sprintf(`access(all) %s %s { access(all) fun f(): Int }`, c33Kinds[d.kind], n)
+	case "enum":
+		switch d.variant {
+		case 1: // case removed
+			return fmt.Sprintf(`access(all) enum %s: UInt8 { access(all) case a }`, n)
+		case 2: // cases swapped
+			return fmt.Sprintf(`access(all) enum %s: UInt8 { access(all) case b  access(all) case a }`, n)
+		}
+		return fmt.Sprintf(`access(all) enum %s: UInt8 { access(all) case a  access(all) case b }`, n)
+	default: // attachment
+		if d.variant != 0 {
+			return fmt.Sprintf(`access(all) attachment %s for AnyStruct { access(all) let x: Int  init() { self.x = 1 } }`, n)
+		}
+		return fmt.Sprintf(`access(all) attachment %s for AnyStruct { }`, n)
+	}
+}
+
+func c33Contract(decls []c33Decl, pragmas []string, answer int) string {
+	parts := []string{"access(all) contract T {"}
+	for _, p := range pragmas {
+		parts = append(parts, "#removedType("+p+")")
+	}
+	for _, d := range decls {
+		parts = append(parts, d.src())
+	}
+	parts = append(parts, fmt.Sprintf("access(all) fun answer(): Int { return %d } }", answer))
+	return strings.Join(parts, "  ")
+}
+
+// c33Mutate derives the declarations of an update from the deployed ones: each is kept, removed
+// (at least `minRemoved` of them), changed in kind or changed in its members; new ones may be added.
+func c33Mutate(r *hx.Rng, old []c33Decl, minRemoved int) (decls []c33Decl, pragmas []string) {
+	remove := map[int]bool{}
+	for _, i := range c33Perm(r, len(old))[:minRemoved] {
+		remove[i] = true
+	}
+	for i, d := range old {
+		switch c := r.Intn(100); {
+		case remove[i] || c < 25:
+			if r.Chance(10) {
+				pragmas = append(pragmas, d.name)
+			}
+			continue
+		case c < 35:
+			d.kind = (d.kind + 1 + r.Intn(len(c33Kinds)-1)) % len(c33Kinds)
+		case c < 50:
+			d.variant = 1 + r.Intn(2)
+		}
+		decls = append(decls, d)
+	}
+	if r.Chance(30) {
+		decls = append(decls, c33Decl{kind: r.Intn(len(c33Kinds)), name: "New" + strconv.Itoa(r.Intn(9))})
+	}
+	if r.Chance(50) {
+		p := c33Perm(r, len(decls))
+		shuffled := make([]c33Decl, len(decls))
+		for i, j := range p {
+			shuffled[i] = decls[j]
+		}
+		decls = shuffled
+	}
+	return decls, pragmas
+}
+
+func c33Perm(r *hx.Rng, n int) []int {
+	p := make([]int, n)
+	for i := range p {
+		p[i] = i
+	}
+	for i := n - 1; i > 0; i-- {
+		j := r.Intn(i + 1)
+		p[i], p[j] = p[j], p[i]
+	}
+	return p
+}
+
+const c33UpdateReps = 20
+
+func c33UpdateTx(fn, code string) string {
+	call := `a.contracts.` + fn + `(name: "T", code: ` + c24Quote(code) + `.utf8)`
+	if fn == "tryUpdate" {
+		call = "let r = " + call + "; log(r.deployedContract == nil)"
+	}
+	return "transaction { prepare(a: " + c24AcctAuth + ") { " + call + " } }"
+}
+
+// c33UpdateHistory: deploy T with the given nested declarations, then `attempts` updates.
+func c33UpdateHistory(r *hx.Rng, engine string, deployed []c33Decl, attempts int, minRemoved int) []string {
+	op := []string{"det", engine + ":" + strconv.Itoa(c33UpdateReps)}
+	op = append(op, "tx", "1", "100000", c33UpdateTx("add", c33Contract(deployed, nil, 42)))
+	for k := 0; k < attempts; k++ {
+		decls, pragmas := c33Mutate(r, deployed, minRemoved)
+		fn := "update"
+		if r.Chance(25) {
+			fn = "tryUpdate"
+		}
+		op = append(op, "tx", "1", "100000", c33UpdateTx(fn, c33Contract(decls, pragmas, 43+k)))
+	}
+	op = append(op, "script", "0", "100000", "import T from 0x1  access(all) fun main(): Int { return T.answer() }")
+	return op
+}
+
+// c33UpdateGen emits the contract-update family: first directed histories (every pair of different
+// kinds, the name order opposite to the kind order, both removed by the update), then random ones.
+func c33UpdateGen(c *hx.Ctx, n int) {
+	r := c.Rng.Fork()
+	engines := []string{"interp", "vm"}
+	emitted := 0
+	// directed: pairs (k1 < k2) named so that the name order is the reverse of the kind order
+	var pairs [][2]int
+	for k1 := 0; k1 < len(c33Kinds); k1++ {
+		for k2 := k1 + 1; k2 < len(c33Kinds); k2++ {
+			pairs = append(pairs, [2]int{k1, k2})
+		}
+	}
+	for _, pi := range c33Perm(r, len(pairs)) {
+		if emitted >= n/3 {
+			break
+		}
+		p := pairs[pi]
+		deployed := []c33Decl{{kind: p[1], name: "R"}, {kind: p[0], name: "S"}}
+		if r.Bool() {
+			deployed[0], deployed[1] = deployed[1], deployed[0]
+		}
+		// the update removes both (minRemoved = all)
+		op := []string{"det", engines[emitted%2] + ":" + strconv.Itoa(c33UpdateReps)}
+		op = append(op, "tx", "1", "100000", c33UpdateTx("add", c33Contract(deployed, nil, 42)))
+		op = append(op, "tx", "1", "100000", c33UpdateTx("update", c33Contract(nil, nil, 42)))
+		c.Emit(op...)
+		emitted++
+	}
+	names := []string{"A", "B", "D", "E", "G", "K", "M", "P", "R", "S", "V", "Z"}
+	for ; emitted < n; emitted++ {
+		k := 3 + r.Intn(6)
+		perm := c33Perm(r, len(names))
+		var deployed []c33Decl
+		for i := 0; i < k; i++ {
+			deployed = append(deployed, c33Decl{kind: r.Intn(len(c33Kinds)), name: names[perm[i]]})
+		}
+		if r.Chance(40) {
+			// names descending in kind order: every pair of different kinds disagrees
+			sort.SliceStable(deployed, func(i, j int) bool { return deployed[i].kind < deployed[j].kind })
+			ns := make([]string, k)
+			for i := range ns {
+				ns[i] = names[perm[i]]
+			}
+			sort.Sort(sort.Reverse(sort.StringSlice(ns)))
+			for i := range deployed {
+				deployed[i].name = ns[i]
+			}
+			if r.Bool() {
+				p := c33Perm(r, k)
+				sh := make([]c33Decl, k)
+				for i, j := range p {
+					sh[i] = deployed[j]
+				}
+				deployed = sh
+			}
+		}
+		c.Emit(c33UpdateHistory(r, engines[emitted%2], deployed, 1+r.Intn(3), 2+r.Intn(k-1))...)
+	}
+}
+
 func c33Gen(c *hx.Ctx) {
+	nUpd := 24
+	if c.Thorough() {
+		nUpd = c.N / 10
+	}
+	c33UpdateGen(c, nUpd)
 	for i := 0; i < c.N; i++ {
 		g := &c24Gen{r: c.Rng.Fork()}
 		engine := []string{"interp", "vm"}[i%2]
@@ -73,8 +286,13 @@ func c33Gen(c *hx.Ctx) {
 	}
 }
 
+// components of the compared observation of one step
+var c33Components = []string{"trace", "logs", "events", "result", "error-text", "ledger"}
+
+const c33Sep = " ## "
+
 func c33RunOnce(op []string) []string {
-	useVM := op[1] == "vm"
+	useVM := strings.HasPrefix(op[1], "vm")
 	w := host.NewWorld()
 	var out []string
 	for i := 2; i+3 < len(op); i += 4 {
@@ -98,37 +316,90 @@ func c33RunOnce(op []string) []string {
 		if res.Value != nil {
 			val = res.Value.String()
 		}
+		// the complete message of the error (all reported sub-errors, in order)
+		errText := ""
+		if res.Err != nil {
+			errText = strings.ReplaceAll(res.Err.Error(), c33Sep, " # # ")
+		}
 		// the full observation of this step (not printed; compared between runs)
-		full := strings.Join(h.Trace, " ") + " ## " + strings.Join(h.Logs, "\x1f") + " ## " + strings.Join(h.Events, "\x1f") +
-			" ## " + cl + ":" + k + ":" + val + " ## " + w.Snapshot()
+		full := strings.Join([]string{
+			strings.Join(h.Trace, " "),
+			strings.Join(h.Logs, "\x1f"),
+			strings.Join(h.Events, "\x1f"),
+			cl + ":" + k + ":" + val,
+			errText,
+			w.Snapshot(),
+		}, c33Sep)
 		out = append(out, full)
 	}
 	return out
+}
+
+// c33Differ names the first component in which two observations of a step differ, with the first
+// differing line of each.
+func c33Differ(a, b string) string {
+	pa, pb := strings.Split(a, c33Sep), strings.Split(b, c33Sep)
+	for i := 0; i < len(pa) && i < len(pb) && i < len(c33Components); i++ {
+		if pa[i] != pb[i] {
+			la, lb := strings.Split(pa[i], "\n"), strings.Split(pb[i], "\n")
+			for j := 0; j < len(la) && j < len(lb); j++ {
+				if la[j] != lb[j] {
+					x, y := la[j], lb[j]
+					if len(x) > 120 {
+						x = x[:120]
+					}
+					if len(y) > 120 {
+						y = y[:120]
+					}
+					return c33Components[i] + ":" + strings.ReplaceAll(hx.Clean(fmt.Sprintf("line %d %q vs %q", j, x, y)), " ;; ", " ; ")
+				}
+			}
+			return c33Components[i] + ":length"
+		}
+	}
+	return "shape"
 }
 
 func c33Exec(op []string) string {
 	if len(op) < 2 || op[0] != "det" || (len(op)-2)%4 != 0 {
 		return "bad-op"
 	}
+	reps := 3
+	if i := strings.IndexByte(op[1], ':'); i >= 0 {
+		n, err := strconv.Atoi(op[1][i+1:])
+		if err != nil || n < 2 || n > 64 {
+			return "bad-op"
+		}
+		reps = n
+	}
 	old := goruntime.GOMAXPROCS(0)
 	defer goruntime.GOMAXPROCS(old)
+	procs := []int{1, 2, old}
 	var runs [][]string
-	for _, procs := range []int{1, 2, old} {
-		goruntime.GOMAXPROCS(procs)
+	for r := 0; r < reps; r++ {
+		goruntime.GOMAXPROCS(procs[r%len(procs)])
 		runs = append(runs, c33RunOnce(op))
 	}
 	verdict := "same"
 	for r := 1; r < len(runs) && verdict == "same"; r++ {
 		for s := range runs[0] {
-			if s >= len(runs[r]) || runs[r][s] != runs[0][s] {
-				verdict = "diff:" + strconv.Itoa(s)
+			if s >= len(runs[r]) {
+				verdict = "diff:" + strconv.Itoa(s) + ":shape"
+				break
+			}
+			if runs[r][s] != runs[0][s] {
+				verdict = "diff:" + strconv.Itoa(s) + ":" + c33Differ(runs[0][s], runs[r][s])
 				break
 			}
 		}
 	}
 	var traces []string
-	for _, full := range runs[0] {
-		traces = append(traces, strings.SplitN(full, " ## ", 2)[0])
+	for s, full := range runs[0] {
+		parts := strings.SplitN(full, c33Sep, len(c33Components))
+		traces = append(traces, parts[0])
+		if os.Getenv("VERIF_DEBUG") != "" && len(parts) == len(c33Components) {
+			fmt.Fprintf(os.Stderr, "det step %d: logs=%q result=%s\n%s\n", s, parts[1], parts[3], parts[4])
+		}
 	}
-	return verdict + " ;; runs=3 ;; " + strings.Join(traces, " | ")
+	return verdict + " ;; runs=" + strconv.Itoa(reps) + " ;; " + strings.Join(traces, " | ")
 }
